@@ -112,6 +112,9 @@ class Stop(Exception):
     pass
 
 
+REPLY_STATUS = [200]
+
+
 def make_transport(docs, reply):
     z = _zeep()
     import requests
@@ -130,13 +133,15 @@ def make_transport(docs, reply):
                 self.evil.append(url)
                 return b"<!ENTITY ext 'EVIL-EXTERNAL-CONTENT'>"
             if url == ENC:
-                return self.docs["enc.xsd"].encode()
+                d = self.docs["enc.xsd"]
+                return d if isinstance(d, bytes) else d.encode()
             name = urlparse(url).path.rsplit("/", 1)[-1]
-            return self.docs[name].encode()
+            d = self.docs[name]
+            return d if isinstance(d, bytes) else d.encode()
 
         def _resp(self):
             r = requests.Response()
-            r.status_code = 200
+            r.status_code = REPLY_STATUS[0]
             ctype, body = self.reply_fn[0]()
             r.headers["Content-Type"] = ctype
             r._content = body
@@ -155,10 +160,11 @@ def make_transport(docs, reply):
 
 def multipart(xml):
     b = "MIMEBOUNDARY123"
-    body = ("--%s\r\nContent-Type: text/xml; charset=utf-8\r\nContent-ID: <root>\r\n\r\n%s\r\n--%s\r\n"
-            "Content-Type: application/octet-stream\r\nContent-ID: <att1>\r\nContent-Transfer-Encoding: binary\r\n\r\nATTACHMENT\r\n--%s--\r\n"
-            % (b, xml, b, b))
-    return 'multipart/related; boundary="%s"; type="text/xml"; start="<root>"' % b, body.encode()
+    raw = xml if isinstance(xml, bytes) else xml.encode()
+    cs = "" if isinstance(xml, bytes) else "; charset=utf-8"
+    body = (("--%s\r\nContent-Type: text/xml%s\r\nContent-ID: <root>\r\nContent-Transfer-Encoding: binary\r\n\r\n" % (b, cs)).encode() + raw +
+            ("\r\n--%s\r\nContent-Type: application/octet-stream\r\nContent-ID: <att1>\r\nContent-Transfer-Encoding: binary\r\n\r\nATTACHMENT\r\n--%s--\r\n" % (b, b)).encode())
+    return 'multipart/related; boundary="%s"; type="text/xml"; start="<root>"' % b, body
 
 
 def classify(exc):
@@ -180,13 +186,19 @@ CARRIERS = {
     "trailing-junk": lambda t: t + "trailing<x>",
     "unclosed": lambda t: "<unclosed></".join(t.rsplit("</", 1)),
 }
+# well-formed carriers: the same document in an encoding whose bytes do not contain ASCII markers
+ENCODINGS = {
+    "utf-16": lambda t: t.replace('<?xml version="1.0"?>', '<?xml version="1.0" encoding="utf-16"?>', 1).encode("utf-16"),
+    "utf-32": lambda t: t.replace('<?xml version="1.0"?>', '<?xml version="1.0" encoding="utf-32"?>', 1).encode("utf-32"),
+    "utf-16-be-bom": lambda t: b"\xfe\xff" + t.replace('<?xml version="1.0"?>', '<?xml version="1.0" encoding="utf-16"?>', 1).encode("utf-16-be"),
+}
 
 
 def libxml2_tree(text, strict):
     """does libxml2 yield a tree for this text under the recover mode zeep chooses (DocInfo.wellFormed of the model)"""
     from lxml import etree
     try:
-        r = etree.fromstring(text.encode(), etree.XMLParser(recover=not strict, resolve_entities=False, remove_comments=True))
+        r = etree.fromstring(text if isinstance(text, bytes) else text.encode(), etree.XMLParser(recover=not strict, resolve_entities=False, remove_comments=True))
         return r is not None
     except etree.XMLSyntaxError:
         return False
@@ -203,7 +215,9 @@ def run_case(path, vname, var, settings_bits, canary_secret, shared=None, carrie
     hostile = dict(prolog=prolog, ref=ref)
 
     def wrap(text):
-        if carrier:
+        if carrier in ENCODINGS:
+            text = ENCODINGS[carrier](text)
+        elif carrier:
             text = CARRIERS[carrier](text)
         if texts is not None:
             texts.append(text)
@@ -237,7 +251,7 @@ def run_case(path, vname, var, settings_bits, canary_secret, shared=None, carrie
         x = reply_doc["xml"]
         if path == "soap-multipart-root":
             return multipart(x)
-        return "text/xml; charset=utf-8", x.encode()
+        return ("text/xml; charset=utf-8", x.encode()) if not isinstance(x, bytes) else ("text/xml", x)
     if shared is not None and "tr" in shared:
         tr = shared["tr"]
         tr.reply_fn[0] = reply
@@ -285,12 +299,14 @@ def run_case(path, vname, var, settings_bits, canary_secret, shared=None, carrie
         outcome = "accepted"
     except Exception as e:  # noqa
         outcome = classify(e)
+        result_repr = "%s %r %r" % (e, getattr(e, "message", ""), getattr(e, "detail", ""))
     finally:
         try:
             ctxm.__exit__(None, None, None)
         except Exception:  # noqa
             pass
-    exposed = any(m in result_repr for m in (canary_secret, "EVIL-EXTERNAL-CONTENT"))
+    # "AAAAAAAA": the nested variant's entities expand to runs of A that never occur literally in the document
+    exposed = any(m in result_repr for m in (canary_secret, "EVIL-EXTERNAL-CONTENT", "AAAAAAAA"))
     return outcome, list(tr.evil), exposed
 
 
@@ -315,8 +331,8 @@ def malformed_cases(ctx, res, vs, allbits, secret):
         for vname, var in vs.items():
             if vname == "benign":
                 continue
-            for cname, fn in CARRIERS.items():
-                if fn(var[0] + "<r/>") is None:
+            for cname, fn in list(CARRIERS.items()) + list(ENCODINGS.items()):
+                if cname in CARRIERS and fn(var[0] + "<r/>") is None:
                     continue
                 for bits in allbits:
                     fd, fe, fx, strict, huge = bits
@@ -343,9 +359,9 @@ def malformed_cases(ctx, res, vs, allbits, secret):
         if evil:
             what = "external entity / DTD target was requested: %s" % evil[:2]
         elif exposed:
-            what = "content of an external resource reached the caller"
+            what = "content of an external resource / expanded entity reached the caller"
         elif exp == "reject" and outcome == "accepted":
-            what = "hostile document in a not-well-formed carrier accepted although the policy forbids it"
+            what = "hostile document (%s carrier) accepted although the policy forbids it" % cname
         if what:
             res.failures.append(dict(what=what, case=case, outcome=outcome))
         elif outcome.startswith("Other:") and mo is not None and mo.get("ok") == "accepted":
@@ -353,6 +369,29 @@ def malformed_cases(ctx, res, vs, allbits, secret):
         elif mo is not None and mo.get("ok") != outcome:
             res.disagreements.append(dict(relation="Loader.policy vs zeep (outcome class, not-well-formed carrier)", case=case,
                                           model=mo.get("ok"), impl=outcome, libxml2_yields_tree=wf))
+
+
+def error_status_cases(ctx, res, vs, secret):
+    """hostile replies with an HTTP error status on every reply path: whatever is raised, nothing external is requested and
+    no entity of the reply is expanded into what the caller gets (message, detail of the exception)"""
+    combos = [(fd, fe, True, strict, False) for fd in (False, True) for fe in (False, True) for strict in (False, True)]
+    for status in (500, 400, 202):
+        REPLY_STATUS[0] = status
+        try:
+            for path in REPLY_PATHS:
+                for vname in ("nested", "internal-used", "ext-system-file", "ext-system-http", "ext-dtd-http", "parameter"):
+                    for bits in combos:
+                        outcome, evil, exposed = run_case(path, vname, vs[vname], bits, secret)
+                        res.case(key=("error-status", status, path, vname, bits), nontrivial=True)
+                        res.count("error-status:%d" % status)
+                        case = dict(path=path, variant=vname, status=status,
+                                    settings=dict(zip(("forbid_dtd", "forbid_entities", "forbid_external", "strict", "xml_huge_tree"), bits)))
+                        if evil:
+                            res.failures.append(dict(what="external entity / DTD target was requested while handling an error reply: %s" % evil[:2], case=case, outcome=outcome))
+                        elif exposed:
+                            res.failures.append(dict(what="an entity of a hostile error reply was expanded into what the caller receives", case=case, outcome=outcome))
+        finally:
+            REPLY_STATUS[0] = 200
 
 
 def run(ctx):
@@ -409,6 +448,7 @@ def run(ctx):
                 if m != outcome:
                     res.disagreements.append(dict(relation="Loader.policy vs zeep (outcome class)", case=case, model=m, impl=outcome))
         malformed_cases(ctx, res, vs, allbits, secret)
+        error_status_cases(ctx, res, vs, secret)
         # sequences on shared state: the same URL / the same client under different settings, one after the
         # other (each load must be judged under the settings current at that moment)
         LEN = (False, False, True, True, False)
@@ -439,7 +479,7 @@ def run(ctx):
     res.exhaustive = True
     res.programs = len(PATHS)
     res.rule = ("9 ingress paths x 12 document variants (benign, DOCTYPE only, internal used/unused, parameter, external SYSTEM http/file, "
-                "PUBLIC, external subset http/file, nested expansion, external parameter entity) x all 32 combinations of the five settings; every hostile variant again inside four not-well-formed carriers (junk before the prolog, broken internal subset, trailing junk, unclosed element) on every path; plus two- and three-step sequences (lenient/strict alternations) on a shared transport (document paths: a new client per step) or a shared client under client.settings(...) overrides (reply paths). distinct = distinct (path, variant, settings); non-trivial = not the benign variant")
+                "PUBLIC, external subset http/file, nested expansion, external parameter entity) x all 32 combinations of the five settings; every hostile variant again inside four not-well-formed carriers (junk before the prolog, broken internal subset, trailing junk, unclosed element) and in three other encodings (UTF-16, UTF-32, UTF-16 big endian with BOM) on every path; hostile replies with HTTP status 500 / 400 / 202 on every reply path; plus two- and three-step sequences (lenient/strict alternations) on a shared transport (document paths: a new client per step) or a shared client under client.settings(...) overrides (reply paths). distinct = distinct (path, variant, settings); non-trivial = not the benign variant")
     return res
 
 
@@ -455,6 +495,7 @@ def replay(ctx, payload):
         bad = [f for f in r.failures if f["case"].get("sequence") == case["sequence"] and f["case"]["path"] == case["path"]]
         return (not bad), "sequence rerun: %d failures" % len(bad)
     tmp = tempfile.mkdtemp(prefix="zeepverif-c10-")
+    REPLY_STATUS[0] = case.get("status", 200)
     try:
         canary = os.path.join(tmp, "canary.txt")
         open(canary, "w").write("CANARY-SECRET-R\n")
@@ -463,8 +504,11 @@ def replay(ctx, payload):
         bits = (s["forbid_dtd"], s["forbid_entities"], s["forbid_external"], s["strict"], s["xml_huge_tree"])
         outcome, evil, exposed = run_case(case["path"], case["variant"], var, bits, "CANARY-SECRET-R", carrier=case.get("carrier"))
     finally:
+        REPLY_STATUS[0] = 200
         shutil.rmtree(tmp, ignore_errors=True)
     exp = expected_property(var, bits)
+    if case.get("status", 200) != 200:
+        return (not evil and not exposed), f"status={case['status']} outcome={outcome} evil={evil} exposed={exposed}"
     ok = not evil and not exposed and not (exp == "reject" and outcome == "accepted") and not (exp == "accept" and outcome != "accepted" and not case.get("carrier"))
     return ok, f"outcome={outcome} expected={exp} evil={evil} exposed={exposed}"
 
